@@ -442,7 +442,10 @@ pub fn run_decode(ctx: &mut Ctx, args: &[String]) {
             "proof_from_bytes" => {
                 let mut b = [0u8; 1008];
                 b.copy_from_slice(&bytes[..1008]);
-                Proof::from_bytes(&b).map(|_| "ok".into()).map_err(|x| format!("{:?}", x))
+                // "ok" when the accepted bytes re-encode to themselves, "noncanonical" otherwise
+                Proof::from_bytes(&b)
+                    .map(|p| if p.to_bytes() == b { "ok".into() } else { "noncanonical".into() })
+                    .map_err(|x| format!("{:?}", x))
             }
             "polynomial_from_slice" => hk::polynomial_from_slice(&bytes).map(|n| format!("{n}")).map_err(e),
             "evaluations_from_slice" => hk::evaluations_from_slice(&bytes).map(|n| format!("{n}")).map_err(e),
@@ -581,9 +584,23 @@ impl Circuit for SymSelectorCircuit {
             acc = c.gate_add(g);
         }
         if self.custom {
-            c.component_range_bits::<4>(a);
-            let x = c.append_logic_and::<1>(a, b);
-            c.assert_equal_constant(x, BlsScalar::from(1u64), None);
+            // which custom gate families are present: all (default), or the subset named by
+            // VERIF_CUSTOM (letters r = range, l = logic, f = fixed-base, v = variable-base addition)
+            let fam = std::env::var("VERIF_CUSTOM").unwrap_or_else(|_| "rl".to_string());
+            if fam.contains('r') {
+                c.component_range_bits::<4>(a);
+            }
+            if fam.contains('l') {
+                let x = c.append_logic_and::<1>(a, b);
+                c.assert_equal_constant(x, BlsScalar::from(1u64), None);
+            }
+            if fam.contains('f') || fam.contains('v') {
+                let p = c.component_mul_generator(b, dusk_jubjub::GENERATOR_EXTENDED)?;
+                if fam.contains('v') {
+                    let q = c.component_add_point(p, p);
+                    c.assert_equal_point(q.into(), q.into());
+                }
+            }
         }
         Ok(())
     }
@@ -746,8 +763,14 @@ impl Circuit for ListCircuit {
             if j < self.pis {
                 g = g.public(k(5));
             }
-            // output selector -1 so that the composer can always solve for the output
-            acc = c.gate_add(g);
+            if j % 2 == 1 && j >= self.pis {
+                // every second row: a free OUTPUT selector as well (all six selector columns of one
+                // row carry values seen nowhere else); the composer solves for the output wire
+                acc = c.append_evaluated_output(g.output(k(5))).unwrap_or(acc);
+            } else {
+                // output selector -1
+                acc = c.gate_add(g);
+            }
         }
         if self.custom {
             c.component_range_bits::<6>(a);
@@ -1186,7 +1209,8 @@ pub fn run_decode_validity(ctx: &mut Ctx, args: &[String]) {
             "polynomial" => hk::polynomial_from_slice(&bytes).map(|_| ()).map_err(|e| format!("{:?}", e)),
             "verifier" => Verifier::try_from_bytes(&bytes).map(|_| ()).map_err(|e| format!("{:?}", e)),
             "prover" => Prover::try_from_bytes(&bytes).map(|_| ()).map_err(|e| format!("{:?}", e)),
-            _ => PublicParameters::from_slice(&bytes).map(|_| ()).map_err(|e| format!("{:?}", e)),
+            // an accepted parameter set must be usable: its degree is queried right away
+            _ => PublicParameters::from_slice(&bytes).map(|pp| { let _ = pp.max_degree(); }).map_err(|e| format!("{:?}", e)),
         };
         match r {
             Ok(()) => json!({"accepted": true}),
